@@ -585,6 +585,33 @@ def _nonempty_guard(c, idx):
     return False
 
 
+def _polar_pairs(p):
+    """U(M) @ Vt(M) of one SVD of M is the orthogonal polar factor of M"""
+    if not any(len(chain) >= 2 for (s, chain), k in p):
+        return p
+    d = {}
+    hit = False
+    for (s, chain), k in p:
+        out = []
+        i = 0
+        while i < len(chain):
+            x = chain[i]
+            if i + 1 < len(chain) and x.op == "svd_U" and chain[i + 1].op == "svd_Vt" and x.kids == chain[i + 1].kids:
+                out.append(A("polar", x.kids[0]))
+                hit = True
+                i += 2
+            elif i + 1 < len(chain) and x.op == "t" and x.kids[0].op == "svd_Vt" and chain[i + 1].op == "t" and chain[i + 1].kids[0].op == "svd_U" and x.kids[0].kids == chain[i + 1].kids[0].kids:
+                out.append(A("t", A("polar", x.kids[0].kids[0])))
+                hit = True
+                i += 2
+            else:
+                out.append(x)
+                i += 1
+        m = (s, tuple(out))
+        d[m] = d.get(m, 0) + k
+    return _mk(d) if hit else p
+
+
 def _is_inf(x):
     return isinstance(x, Node) and x.op == "const" and x.kids and x.kids[0] == "inf"
 
@@ -687,7 +714,10 @@ class Normalizer:
         if op == "div":
             return p_had(self.nf(a[0]), p_pow(self.nf(a[1]), -1))
         if op == "matmul":
-            return p_matmul(self.nf(a[0]), self.nf(a[1]))
+            return _polar_pairs(p_matmul(self.nf(a[0]), self.nf(a[1])))
+        if op == "procrustes" and len(a) == 2:
+            # orthogonal Procrustes: argmin_R |A R - B| is the orthogonal polar factor U V^T of A^T B
+            return P_atom(A("polar", wrap(p_matmul(p_T(self.nf(a[0]), self.symmetric), self.nf(a[1])))))
         if op == "norm" and len(a) == 1:
             # Frobenius / Euclidean norm = sqrt(sum of squares)
             x = self.nf(a[0])
@@ -816,9 +846,17 @@ class Normalizer:
             # [k * e(x) for x in xs] = k * [e(x) for x in xs] for a factor k that does not vary with x
             pe = self.nf(a[2])
             lvn = self.freeze(Term("lv", a[0]))
+            # k + e(x): a scalar addend that does not vary with x is added to every element (broadcast)
+            outside = ZERO
+            if len(a) == 3 and len(pe) > 1:
+                inv_m = {m: k for m, k in pe if not _mentions(m[0], lvn) and not _mentions(m[1], lvn)}
+                var_m = {m: k for m, k in pe if m not in inv_m}
+                if inv_m and var_m:
+                    outside = _mk(inv_m)
+                    pe = _mk(var_m)
             fac, rest = _split_content(pe, lambda n: not _mentions(n, lvn))
             node = A("comp", a[0], self.freeze(a[1]), wrap(rest), *[self.freeze(x) for x in a[3:]])
-            return p_had(fac, P_atom(node))
+            return p_add(outside, p_had(fac, P_atom(node)))
         if op == "stack" and len(a) == 2 and isinstance(a[1], Term) and a[1].op == "argwhere" and len(a[1].args) == 2 and a[1].args[1] == ("rank", Term("const", Fraction(1))) and isinstance(a[0], Term) and a[0].op == "const" and a[0].args[0] == 0:
             # np.concatenate(np.argwhere(m)) lists the indices of a 1-D mask: np.flatnonzero(m)
             return self.nf(Term("nonzero1", a[1].args[0]))
